@@ -1203,4 +1203,288 @@ theorem value_congr_below (env : Env) (s s' : State) (hwf : MapRefsBack s)
   exact valueWith_congr_below env.proj s s' hwf a h _ _ (by omega) (by omega)
 
 
+/-! ## `recomputeOne`: master equations per kind -/
+
+/-- the first thing `recompute_one n` does: (debug) remember the running node, bump the `recomputed`
+counter, stamp `recomputedAt := stabNum` -/
+def started (n : Nat) (s : State) : State :=
+  { s with
+    currentlyRunning := if s.cfg.debug = true then some n else s.currentlyRunning,
+    counters := { s.counters with recomputed := s.counters.recomputed + 1 },
+    nodes := s.nodes.modify n fun x => { x with recomputedAt := s.stabNum } }
+
+theorem started_nodeD (n m : Nat) (s : State) :
+    (started n s).nodeD m =
+      if n = m ∧ m < s.nodes.size then { s.nodeD m with recomputedAt := s.stabNum } else s.nodeD m :=
+  nodeD_modify s n m _
+
+theorem started_getElem? (n : Nat) (s : State) (nd : Node) (hn : s.nodes[n]? = some nd) :
+    (started n s).nodes[n]? = some { nd with recomputedAt := s.stabNum } := by
+  simp [started, Array.getElem?_modify, hn]
+
+theorem started_value (env : Env) (n : Nat) (s : State) (a : Nat) :
+    (started n s).value env a = s.value env a := by
+  apply value_congr env s (started n s) (by simp [started])
+  intro m
+  rw [started_nodeD]
+  split <;> rfl
+
+/-- the values of a list of nodes, if all of them have one -/
+def valuesOf (env : Env) (s : State) : List Nat → Option (List Val)
+  | [] => some []
+  | a :: as =>
+    match s.value env a, valuesOf env s as with
+    | some v, some vs => some (v :: vs)
+    | _, _ => none
+
+theorem valuesOf_congr (env : Env) (s s' : State) (args : List Nat)
+    (h : ∀ a, a ∈ args → s'.value env a = s.value env a) :
+    valuesOf env s' args = valuesOf env s args := by
+  induction args with
+  | nil => rfl
+  | cons a as ih =>
+    simp only [valuesOf]
+    rw [h a (List.mem_cons_self ..), ih (fun b hb => h b (List.mem_cons_of_mem _ hb))]
+
+theorem valuesOf_eq_some_iff (env : Env) (s : State) (args : List Nat) (vals : List Val) :
+    valuesOf env s args = some vals ↔ args.map (s.value env) = vals.map some := by
+  induction args generalizing vals with
+  | nil =>
+    cases vals <;> simp [valuesOf]
+  | cons a as ih =>
+    simp only [valuesOf, List.map_cons]
+    cases hv : s.value env a with
+    | none => cases vals <;> simp
+    | some v =>
+      cases hvs : valuesOf env s as with
+      | none =>
+        cases vals with
+        | nil => simp
+        | cons w ws =>
+          simp only [List.map_cons, List.cons.injEq, Option.some.injEq, reduceCtorEq, false_iff, not_and]
+          intro _ h
+          have := (ih ws).2 h
+          rw [hvs] at this; cases this
+      | some vs =>
+        cases vals with
+        | nil => simp
+        | cons w ws =>
+          simp only [List.map_cons, List.cons.injEq, Option.some.injEq]
+          constructor
+          · rintro ⟨rfl, rfl⟩; exact ⟨rfl, (ih vs).1 hvs⟩
+          · rintro ⟨rfl, h⟩
+            have := (ih ws).2 h
+            rw [hvs] at this; cases this; exact ⟨rfl, rfl⟩
+
+theorem run_valueUnwrap (env : Env) (a : Nat) (site : String) (s : State) :
+    (valueUnwrap env a site).run.run s = match s.value env a with
+      | some v => (.ok v, s)
+      | none => (.error (.site site), s) := by
+  simp only [valueUnwrap, run_bind_get]
+  cases s.value env a <;> rfl
+
+theorem run_mapM_valueUnwrap (env : Env) (site : String) (s : State) (args : List Nat) :
+    (args.mapM fun a => valueUnwrap env a site).run.run s = match valuesOf env s args with
+      | some vs => (.ok vs, s)
+      | none => (.error (.site site), s) := by
+  induction args with
+  | nil => simp only [List.mapM_nil, valuesOf, run_pure]
+  | cons a as ih =>
+    simp only [List.mapM_cons, valuesOf, run_bind, run_valueUnwrap]
+    cases s.value env a with
+    | none => rfl
+    | some v =>
+      simp only [ih]
+      cases valuesOf env s as <;> rfl
+
+theorem run_bind_tick_none {β} (f : Unit → M β) (s : State) (h : s.panicCountdown = none) :
+    (tick >>= f).run.run s = (f ()).run.run s := run_bind_ok (run_tick_none s h)
+
+theorem run_bind_logEv {β} (e : Event) (f : Unit → M β) (s : State) :
+    (logEv e >>= f).run.run s = (f ()).run.run { s with log := e :: s.log } :=
+  run_bind_ok (run_logEv e s)
+
+theorem runEffects_nil (env : Env) (fuel : Nat) (arg : Int) : runEffects env fuel [] arg = pure () := rfl
+
+
+
+theorem recomputeOne_map_run (env : Env) (fuel n : Nat) (s : State) (nd : Node) (f : Nat)
+    (args : List Nat) (vals : List Val)
+    (hn : s.nodes[n]? = some nd) (hv : nd.valid = true) (hk : nd.kind = .map f args)
+    (hf : f < fnZip) (hvals : valuesOf env s args = some vals) (heff : env.fnEff f vals = [])
+    (hp : s.panicCountdown = none) :
+    (recomputeOne env fuel n).run.run s =
+      (maybeChangeValue env fuel n (env.fn f vals)).run.run
+        (logged [.inv s!"f{f}" n vals (env.fn f vals).render] (started n s)) := by
+  have hk? : ({ nd with recomputedAt := s.stabNum } : Node).kind? = some (.map f args) := by
+    simp [Node.kind?, hv, hk]
+  have hvals' : valuesOf env (started n s) args = some vals := by
+    rw [valuesOf_congr env s (started n s) args (fun a _ => started_value env n s a)]; exact hvals
+  have hn' := started_getElem? n s nd hn
+  unfold recomputeOne
+  simp only [run_bind_get]
+  cases hd : s.cfg.debug
+  all_goals
+    simp only [started, hd, Bool.false_eq_true, if_false, if_true, run_bind_modify,
+      run_bind_bumpCounter, run_bind_get, run_bind_modNode] at hn' hvals' ⊢
+    rw [run_bind_ok (run_getNode_some hn'), hk?]
+    dsimp only
+    rw [run_bind_of (run_mapM_valueUnwrap env _ _ args), hvals']
+    dsimp only
+    rw [if_pos hf]
+    simp only [run_bind_tick_none, hp, heff, runEffects_nil, pure_bind, run_bind_logEv]
+    rfl
+
+
+theorem recomputeOne_mapBuiltin_run (env : Env) (fuel n : Nat) (s : State) (nd : Node) (f : Nat)
+    (args : List Nat) (vals : List Val)
+    (hn : s.nodes[n]? = some nd) (hv : nd.valid = true) (hk : nd.kind = .map f args)
+    (hf : ¬ f < fnZip) (hvals : valuesOf env s args = some vals) :
+    (recomputeOne env fuel n).run.run s =
+      (maybeChangeValue env fuel n (env.fn f vals)).run.run (started n s) := by
+  have hk? : ({ nd with recomputedAt := s.stabNum } : Node).kind? = some (.map f args) := by
+    simp [Node.kind?, hv, hk]
+  have hvals' : valuesOf env (started n s) args = some vals := by
+    rw [valuesOf_congr env s (started n s) args (fun a _ => started_value env n s a)]; exact hvals
+  have hn' := started_getElem? n s nd hn
+  unfold recomputeOne
+  simp only [run_bind_get]
+  cases hd : s.cfg.debug
+  all_goals
+    simp only [started, hd, Bool.false_eq_true, if_false, if_true, run_bind_modify,
+      run_bind_bumpCounter, run_bind_get, run_bind_modNode] at hn' hvals' ⊢
+    rw [run_bind_ok (run_getNode_some hn'), hk?]
+    dsimp only
+    rw [run_bind_of (run_mapM_valueUnwrap env _ _ args), hvals']
+    dsimp only
+    rw [if_neg hf]
+
+theorem recomputeOne_var_run (env : Env) (fuel n : Nat) (s : State) (nd : Node) (c : Nat)
+    (vc : VarCell)
+    (hn : s.nodes[n]? = some nd) (hv : nd.valid = true) (hk : nd.kind = .var c)
+    (hc : s.vars[c]? = some vc) :
+    (recomputeOne env fuel n).run.run s =
+      (maybeChangeValue env fuel n vc.value).run.run (started n s) := by
+  have hk? : ({ nd with recomputedAt := s.stabNum } : Node).kind? = some (.var c) := by
+    simp [Node.kind?, hv, hk]
+  have hn' := started_getElem? n s nd hn
+  unfold recomputeOne
+  simp only [run_bind_get]
+  cases hd : s.cfg.debug
+  all_goals
+    simp only [started, hd, Bool.false_eq_true, if_false, if_true, run_bind_modify,
+      run_bind_bumpCounter, run_bind_get, run_bind_modNode] at hn' ⊢
+    rw [run_bind_ok (run_getNode_some hn'), hk?]
+    dsimp only
+    simp only [getVar, bind_assoc, run_bind_get, hc, pure_bind]
+
+theorem recomputeOne_const_run (env : Env) (fuel n : Nat) (s : State) (nd : Node) (v : Val)
+    (hn : s.nodes[n]? = some nd) (hv : nd.valid = true) (hk : nd.kind = .const v) :
+    (recomputeOne env fuel n).run.run s =
+      (maybeChangeValue env fuel n v).run.run (started n s) := by
+  have hk? : ({ nd with recomputedAt := s.stabNum } : Node).kind? = some (.const v) := by
+    simp [Node.kind?, hv, hk]
+  have hn' := started_getElem? n s nd hn
+  unfold recomputeOne
+  simp only [run_bind_get]
+  cases hd : s.cfg.debug
+  all_goals
+    simp only [started, hd, Bool.false_eq_true, if_false, if_true, run_bind_modify,
+      run_bind_bumpCounter, run_bind_get, run_bind_modNode] at hn' ⊢
+    rw [run_bind_ok (run_getNode_some hn'), hk?]
+
+theorem recomputeOne_fold_run (env : Env) (fuel n : Nat) (s : State) (nd : Node) (f : Nat)
+    (init : Val) (cs : List Nat) (vals : List Val)
+    (hn : s.nodes[n]? = some nd) (hv : nd.valid = true) (hk : nd.kind = .fold f init cs)
+    (hvals : valuesOf env s cs = some vals) (hp : s.panicCountdown = none) :
+    (recomputeOne env fuel n).run.run s =
+      (maybeChangeValue env fuel n (vals.foldl (env.foldStep f) init)).run.run
+        (logged [.inv s!"fold{f}" n vals (vals.foldl (env.foldStep f) init).render] (started n s)) := by
+  have hk? : ({ nd with recomputedAt := s.stabNum } : Node).kind? = some (.fold f init cs) := by
+    simp [Node.kind?, hv, hk]
+  have hvals' : valuesOf env (started n s) cs = some vals := by
+    rw [valuesOf_congr env s (started n s) cs (fun a _ => started_value env n s a)]; exact hvals
+  have hn' := started_getElem? n s nd hn
+  unfold recomputeOne
+  simp only [run_bind_get]
+  cases hd : s.cfg.debug
+  all_goals
+    simp only [started, hd, Bool.false_eq_true, if_false, if_true, run_bind_modify,
+      run_bind_bumpCounter, run_bind_get, run_bind_modNode] at hn' hvals' ⊢
+    rw [run_bind_ok (run_getNode_some hn'), hk?]
+    dsimp only
+    rw [run_bind_of (run_mapM_valueUnwrap env _ _ cs), hvals']
+    dsimp only
+    simp only [run_bind_tick_none, hp, run_bind_logEv]
+    rfl
+
+
+/-- node `n`'s `value` and `oldState` set by a MapWithOld recompute -/
+def setWithOld (n : Nat) (new : Val) (σ' : Val) (s : State) : State :=
+  { s with nodes := s.nodes.modify n fun y => { y with value := some new, oldState := σ' } }
+
+theorem recomputeOne_mapWithOld_run (env : Env) (fuel n : Nat) (s : State) (nd : Node) (g i : Nat)
+    (x σ' new : Val) (did : Bool)
+    (hn : s.nodes[n]? = some nd) (hv : nd.valid = true) (hk : nd.kind = .mapWithOld g i)
+    (hx : s.value env i = some x) (hp : s.panicCountdown = none)
+    (hw : env.withOld g nd.oldState nd.value x = (σ', new, did)) :
+    (recomputeOne env fuel n).run.run s =
+      (maybeChangeValueManual env fuel n none did true).run.run
+        (setWithOld n new σ'
+          (logged [.inv s!"g{g}" n ((match nd.value with | some o => [o] | none => []) ++ [x])
+            s!"{new.render},{did}"] (started n s))) := by
+  have hk? : ({ nd with recomputedAt := s.stabNum } : Node).kind? = some (.mapWithOld g i) := by
+    simp [Node.kind?, hv, hk]
+  have hx' : (started n s).value env i = some x := by rw [started_value]; exact hx
+  have hn' := started_getElem? n s nd hn
+  have h1 : (env.withOld g nd.oldState nd.value x).1 = σ' := by rw [hw]
+  have h2 : (env.withOld g nd.oldState nd.value x).2.1 = new := by rw [hw]
+  have h3 : (env.withOld g nd.oldState nd.value x).2.2 = did := by rw [hw]
+  unfold recomputeOne
+  simp only [run_bind_get]
+  cases hd : s.cfg.debug
+  all_goals
+    simp only [started, hd, Bool.false_eq_true, if_false, if_true, run_bind_modify,
+      run_bind_bumpCounter, run_bind_get, run_bind_modNode] at hn' hx' ⊢
+    rw [run_bind_ok (run_getNode_some hn'), hk?]
+    dsimp only
+    rw [run_bind_of (run_valueUnwrap env i _ _), hx']
+    dsimp only
+    rw [h1, h2, h3]
+    simp only [run_bind_modNode, run_bind_tick_none, hp, run_bind_logEv, setWithOld, logged,
+      array_modify_modify]
+    rfl
+
+
+theorem recomputeOne_bindMain_run (env : Env) (fuel n : Nat) (s : State) (nd : Node) (b lc r : Nat)
+    (br : BindRec) (rn : Node) (v : Val)
+    (hn : s.nodes[n]? = some nd) (hv : nd.valid = true) (hk : nd.kind = .bindMain b lc)
+    (hb : s.binds[b]? = some br) (hr : br.rhs = some r) (hrn : s.nodes[r]? = some rn)
+    (hrv : rn.valid = true) (hval : s.value env r = some v) :
+    (recomputeOne env fuel n).run.run s =
+      (maybeChangeValue env fuel n v).run.run (started n s) := by
+  have hk? : ({ nd with recomputedAt := s.stabNum } : Node).kind? = some (.bindMain b lc) := by
+    simp [Node.kind?, hv, hk]
+  have hval' : (started n s).value env r = some v := by rw [started_value]; exact hval
+  have hn' := started_getElem? n s nd hn
+  have hrn' : ∃ rn', (started n s).nodes[r]? = some rn' ∧ rn'.valid = true := by
+    by_cases h : n = r
+    · subst h
+      rw [hn] at hrn; cases hrn
+      exact ⟨_, hn', hrv⟩
+    · exact ⟨rn, by simp [started, Array.getElem?_modify, h, hrn], hrv⟩
+  obtain ⟨rn', hrn', hrv'⟩ := hrn'
+  unfold recomputeOne
+  simp only [run_bind_get]
+  cases hd : s.cfg.debug
+  all_goals
+    simp only [started, hd, Bool.false_eq_true, if_false, if_true, run_bind_modify,
+      run_bind_bumpCounter, run_bind_get, run_bind_modNode] at hn' hval' hrn' ⊢
+    rw [run_bind_ok (run_getNode_some hn'), hk?]
+    dsimp only
+    simp only [getBind, bind_assoc, run_bind_get, hb, pure_bind, hr]
+    rw [run_bind_ok (run_getNode_some hrn')]
+    simp only [hrv', if_true, run_bind_get, hval']
+
+
 end IncrVerif.Proofs.Step
